@@ -343,3 +343,19 @@ impl TypeDisplay for Ty {
         Ok(())
     }
 }
+
+#[cfg(feature = "verif-hooks")]
+impl Pool {
+    /// Verification hook (C02): number of interned types.
+    pub fn verif_len(&self) -> usize {
+        self.types.len()
+    }
+}
+
+#[cfg(feature = "verif-hooks")]
+impl TyRef {
+    /// Verification hook (C02): the reference to the `i`-th interned type.
+    pub fn verif_from_index(i: usize) -> Self {
+        Self(i)
+    }
+}
